@@ -119,6 +119,50 @@ def witness_on_real_code():
             "missed_by_the_real_function": len(idx) == 0}
 
 
+ENTRY_THEOREMS = ["Matid.Props.SbcEntry." + t for t in ("fixup_inside", "scale_ge_one", "displacement_scaled")] + ["Matid.Props.C01.entry_rules_ok"]
+
+
+def entry_items(a, system_seen, rng, kind=""):
+    """the entry glue of get_clusters on one real run: the structure the finder was given (`system_seen`, FinderRecorder.system)
+    against the model (driver op `sbcentry`), per non-periodic axis; returns [(line, (scale, new fractional coordinates, kind))]"""
+    from geom_common import fs
+    out = []
+    cell0 = np.array(a.get_cell())
+    if system_seen is None or abs(np.linalg.det(cell0)) <= 1e-6 or a.get_pbc().all():
+        return out
+    f0 = np.linalg.solve(cell0.T, a.get_positions().T).T
+    f1 = np.linalg.solve(np.array(system_seen.get_cell()).T, system_seen.get_positions().T).T
+    nonper = [i for i in range(3) if not a.get_pbc()[i]]
+    anys = any(f0[:, i].max() > 1 or f0[:, i].min() < 0 for i in nonper)
+    if any(min(abs(f0[:, i].max() - 1), abs(f0[:, i].min())) < 1e-9 for i in nonper):
+        return out      # decisions within 1e-9 of the boundary are rounding questions, not logic
+    for i in nonper:
+        pick = [int(j) for j in rng.choice(len(a), min(4, len(a)), replace=False)]
+        line = "sbcentry %d %s %s %s" % (int(anys), fs(f0[:, i].min()), fs(f0[:, i].max()), ",".join(fs(f0[j, i]) for j in pick))
+        s_real = np.linalg.norm(np.array(system_seen.get_cell())[i]) / np.linalg.norm(cell0[i])
+        out.append((line, (float(s_real), [float(f1[j, i]) for j in pick], kind)))
+    return out
+
+
+def entry_corr(ctx, items):
+    from fractions import Fraction as Fr
+    mism = []
+    if not items:
+        return mism
+    for o, (line, (s_real, f_real, kind)) in zip(common.driver([l for l, _ in items]), items):
+        ctx.case(("sbcentry", line), nontrivial=True)
+        ctx.count("entry_axes" + ("_scaled" if line.split(" ")[1] == "1" else ""))
+        try:
+            sm, fm = o.split(" ")
+            ok = abs(float(Fr(sm)) - s_real) < 1e-8 * max(1, s_real) and all(abs(float(Fr(x)) - y) < 1e-8 for x, y in zip(fm.split(","), f_real))
+        except Exception:  # noqa
+            ok = False
+        if not ok:
+            mism.append({"what": "entry fix-up of get_clusters (cell scale / new fractional coordinates along a non-periodic axis)", "op": line, "model": o[:200],
+                         "real": "%r %r" % (s_real, f_real), "kind": kind})
+    return mism
+
+
 ADAPTIVE_THEOREMS = ["Matid.Props.Adaptive." + t for t in ("measured_plus", "measured_minus", "adaptive_close")]
 
 
@@ -142,7 +186,7 @@ def adaptive_corr(ctx, records):
     return mism
 
 
-def check(ctx, broken, adaptive_records=None):
+def check(ctx, broken, adaptive_records=None, entry=None):
     """proof + correspondence of the finder helpers; appends to `broken`"""
     try:
         ctx.coverage["omitted_corner_witness_on_real_code"] = witness_on_real_code()
@@ -151,6 +195,20 @@ def check(ctx, broken, adaptive_records=None):
     ok, info = common.prove(ctx, "MatidProps.Finder", THEOREMS)
     if not ok:
         broken.append(("finder-helpers-proof", info))
+    if entry is not None:
+        terr = common.regen(ctx, ("sbc_rule",))
+        if terr:
+            broken.append(("sbc-rule-translator", terr))
+        ok, info = common.prove(ctx, "MatidProps.C01", ENTRY_THEOREMS, extra_imports=("MatidProps.SbcEntryProps",), gen_targets=("MatidProps.SbcEntryProps",))
+        if not ok:
+            broken.append(("entry-glue-proof", info))
+        try:
+            em = entry_corr(ctx, entry)
+        except common.DriverError as e:
+            broken.append(("driver", {"error": str(e)[-800:]}))
+            em = []
+        if em:
+            broken.append(("entry-glue-correspondence", {"function": "SBC.get_clusters (box fix-up along non-periodic axes)", "count": len(em), "mismatches": em[:3]}))
     if adaptive_records is not None:
         ok, info = common.prove(ctx, "MatidProps.AdaptiveProps", ADAPTIVE_THEOREMS)
         if not ok:
